@@ -25,6 +25,9 @@ type Profile struct {
 	TagPrefix string
 	// LateWritesLast moves late writes to the end of the history.
 	NoLateWriteBefore int
+	// FirstTx is the actor number of the first transaction begun (histories that continue an
+	// earlier one must not reuse its transaction numbers).
+	FirstTx int
 }
 
 var (
@@ -125,7 +128,7 @@ func Generate(rng *rand.Rand, p Profile) []Step {
 	if len(p.Levels) == 0 {
 		p.Levels = []int{0, 1, 2, 3}
 	}
-	g := &genState{rng: rng, p: p, m: refmodel.New()}
+	g := &genState{rng: rng, p: p, m: refmodel.New(), nextTx: p.FirstTx}
 	for len(g.steps) < p.Steps {
 		open := g.m.OpenTxs()
 		kind := g.pick(p.W, func(n string) bool {
